@@ -27,12 +27,15 @@ BUDGET_S = {"quick": 38.0, "thorough": 560.0}
 RULE = ("a case is a block of region instances of one class (rectangle, ellipse, circle, annulus, polygon, x/y range, "
         "categorical, projected 3-d); each instance = descriptor drawn from class-specific recipes (theta exactly at / "
         "within 1e-12..1e-6 of multiples of pi/2 / general; thin, tiny, degenerate shapes; convex, concave, "
-        "self-intersecting, lattice, comb, closed/open polygons with python or numpy vertices) + a history of 2-5 "
+        "self-intersecting, lattice, comb, closed/open polygons with python or numpy vertices; the whole configuration "
+        "also at coordinate magnitudes 1e-6 and 1e6; 3-d projection matrices with w = 1, constant w = s in {2, 0.5, -3, 1e-3}, "
+        "whole matrix times s, full perspective, one perspective term with s != 1) + a history of 2-5 "
         "move/rotate/copy/restore/to_polygon steps, each followed by a contains() comparison on a random "
         "presentation of ~250 points (lattice, random, boundary +- k*tol, far). evaluation = one contains call "
         "compared with the reference; non-trivial = it had compared points both inside and outside; distinct = "
         "distinct (class, variant, theta class, step kinds so far, presentation, chunking) fingerprints.")
-ASSUMPTIONS = ["the reference geometry in vf/lib_C08_geom.py (rotate the point into the shape frame; radius; even-odd "
+ASSUMPTIONS = ["boundary band margin in full: 1e-7 x largest half-extent + 1e-10 x max(largest |coordinate| of the region, 1e-3)",
+               "the reference geometry in vf/lib_C08_geom.py (rotate the point into the shape frame; radius; even-odd "
                "crossing number, cross-checked against exact rational arithmetic on samples; explicit homogeneous "
                "projection) is the specification",
                "boundary band: margin 1e-7 x (largest half-extent) + 1e-10 around the boundary; to_polygon of curved shapes: "
